@@ -37,6 +37,10 @@ type scenario struct {
 	// FanIn > 0: two producers feed ONE consumer through two bonds; the consumer reads input 0 then input 1 with
 	// FanIn-1 instructions between the two reads (1 = back to back). K is 1.
 	FanIn int `json:"fan_in,omitempty"`
+	// MultiOut > 0: ONE producer with MultiOut outputs, each bonded to its own consumer; the producer writes the same
+	// value to o0, o1, ... in consecutive instructions (a processor whose output selector is wider than its input
+	// selector). K is MultiOut.
+	MultiOut int `json:"multi_out,omitempty"`
 }
 
 func (sc scenario) pcRecv() uint64 {
@@ -50,6 +54,9 @@ func (sc scenario) nin() int {
 	if sc.FanIn > 0 {
 		return 3
 	}
+	if sc.MultiOut > 0 {
+		return 1 + sc.MultiOut
+	}
 	if sc.Tight > 0 {
 		return 1
 	}
@@ -61,6 +68,23 @@ const step = 64
 func (sc scenario) system() bmsys.System {
 	prodOps := []string{"rset", "i2r", "jz", sc.SendOp, "add", "j"}
 	sys := bmsys.System{}
+	if sc.MultiOut > 0 {
+		prog := []string{"rset r1 " + strconv.Itoa(step), "i2r r2 i0", "jz r2 1"}
+		for o := 0; o < sc.MultiOut; o++ {
+			prog = append(prog, fmt.Sprintf("%s r0 o%d", sc.SendOp, o))
+		}
+		prog = append(prog, "add r0 r1", "j 1")
+		sys.Procs = append(sys.Procs, bmsys.Proc{Spec: bmgen.ArchSpec{Rsize: 8, R: 2, N: 1, M: uint8(sc.MultiOut), O: 3, Ops: prodOps}, Program: prog})
+		sys.ExtIn = sc.nin()
+		sys.Bonds = append(sys.Bonds, [2]string{"p0i0", "i0"})
+		for c := 1; c <= sc.MultiOut; c++ {
+			sys.Procs = append(sys.Procs, bmsys.Proc{Spec: bmgen.ArchSpec{Rsize: 8, R: 2, N: 2, M: 0, O: 3, Ops: []string{"i2r", "jz", "i2rw", "nop", "j"}},
+				Program: []string{"i2r r2 i1", "jz r2 0", "i2rw r0 i0", "nop", "j 0"}})
+			sys.Bonds = append(sys.Bonds, [2]string{fmt.Sprintf("p%di1", c), fmt.Sprintf("i%d", c)})
+			sys.Bonds = append(sys.Bonds, [2]string{fmt.Sprintf("p%di0", c), fmt.Sprintf("p0o%d", c-1)})
+		}
+		return sys
+	}
 	if sc.FanIn > 0 {
 		for p := 0; p < 2; p++ {
 			sys.Procs = append(sys.Procs, bmsys.Proc{
@@ -150,6 +174,9 @@ type event struct{ class, detail string }
 func monitor(sc scenario, g *ghost, before, after obs) (evs []event, progress bool) {
 	if sc.FanIn > 0 {
 		return monitorFanIn(sc, g, before, after)
+	}
+	if sc.MultiOut > 0 {
+		return monitorMultiOut(sc, g, before, after)
 	}
 	pcRecv := sc.pcRecv()
 	// consumers first: a value received in this tick was issued in an earlier one
@@ -247,6 +274,46 @@ func monitorFanIn(sc scenario, g *ghost, before, after obs) (evs []event, progre
 			}
 			if want := uint64(g.iss[b]) * step & 0xff; after.r0[b] != want {
 				evs = append(evs, event{"harness-payload", fmt.Sprintf("producer %d payload %d, expected %d", b, after.r0[b], want)})
+			}
+			g.iss[b] = (g.iss[b] + 1) & 3
+		}
+	}
+	return
+}
+
+// monitorMultiOut: bond b connects output b of the producer (sent at pc pcSend+b) to consumer b+1.
+func monitorMultiOut(sc scenario, g *ghost, before, after obs) (evs []event, progress bool) {
+	for b := 0; b < sc.MultiOut; b++ {
+		c := b + 1
+		if before.pc[c] == 2 && after.pc[c] == 3 {
+			got := after.r0[c]
+			lag := (g.iss[b] - g.recv[b]) & 3
+			want := uint64(g.recv[b]) * step & 0xff
+			switch {
+			case lag == 0 && got == uint64((g.recv[b]-1)&3)*step&0xff:
+				evs = append(evs, event{"duplicate", fmt.Sprintf("consumer %d captured %d again (nothing new had been issued on output %d)", c, got, b)})
+				continue
+			case lag == 0:
+				evs = append(evs, event{"phantom", fmt.Sprintf("consumer %d captured %d but nothing was outstanding on output %d", c, got, b)})
+				continue
+			case got != want:
+				evs = append(evs, event{"wrong-value", fmt.Sprintf("consumer %d captured %d from output %d, expected the next value %d", c, got, b, want)})
+			}
+			g.recv[b] = (g.recv[b] + 1) & 3
+			progress = true
+		}
+	}
+	for b := 0; b < sc.MultiOut; b++ {
+		pcS := uint64(pcSend + b)
+		if before.pc[0] == pcS && after.pc[0] == pcS+1 && g.recv[b] != g.iss[b] {
+			evs = append(evs, event{"producer-passed-early", fmt.Sprintf("the producer left its %s on output %d while consumer %d had not received the value (lost value)", sc.SendOp, b, b+1)})
+		}
+		if before.pc[0] != pcS && after.pc[0] == pcS {
+			if g.recv[b] != g.iss[b] {
+				evs = append(evs, event{"issue-overrun", fmt.Sprintf("the producer offered a new value on output %d while consumer %d lagged", b, b+1)})
+			}
+			if want := uint64(g.iss[b]) * step & 0xff; after.r0[0] != want {
+				evs = append(evs, event{"harness-payload", fmt.Sprintf("producer payload %d, expected %d", after.r0[0], want)})
 			}
 			g.iss[b] = (g.iss[b] + 1) & 3
 		}
@@ -409,6 +476,9 @@ func explore(sc scenario, backend string, maxStates int) outcome {
 	if sc.FanIn > 0 {
 		init.g = ghost{0, make([]uint8, 2), make([]uint8, 2)}
 	}
+	if sc.MultiOut > 0 {
+		init.g = ghost{0, make([]uint8, sc.MultiOut), make([]uint8, sc.MultiOut)}
+	}
 	if backend == "hdl" {
 		init.hdl = h0.Initial
 		init.bk = string(h0.Initial)
@@ -490,6 +560,8 @@ func main() {
 		scenario{Name: "r2owa-i2rw-gap1-k1", SendOp: "r2owa", K: 1, Tight: 1},
 		scenario{Name: "r2owa-i2rw-gap2-k1", SendOp: "r2owa", K: 1, Tight: 2},
 		scenario{Name: "r2owa-i2rw-gap3-k1", SendOp: "r2owa", K: 1, Tight: 3},
+		// one producer with three outputs, one consumer per output (output selector wider than the input selector)
+		scenario{Name: "three-outputs", SendOp: "r2owa", K: 3, MultiOut: 3},
 		// fan-in: two producers, one consumer reading both bonds back to back / with one instruction in between
 		scenario{Name: "fan-in-2-back-to-back", SendOp: "r2owa", K: 1, FanIn: 1},
 		scenario{Name: "fan-in-2-gap1", SendOp: "r2owa", K: 1, FanIn: 2},
@@ -601,6 +673,9 @@ func main() {
 		if o.sc.FanIn > 0 {
 			shape = fmt.Sprintf("fan-in-2,reads-%d-apart", o.sc.FanIn)
 		}
+		if o.sc.MultiOut > 0 {
+			shape = fmt.Sprintf("%d-outputs", o.sc.MultiOut)
+		}
 		keys := make([]string, 0, len(o.violations))
 		for k := range o.violations {
 			keys = append(keys, k)
@@ -649,6 +724,9 @@ func doReplay(run *vlib.Run) {
 	g := ghost{0, make([]uint8, sc.K), nil}
 	if sc.FanIn > 0 {
 		g = ghost{0, make([]uint8, 2), make([]uint8, 2)}
+	}
+	if sc.MultiOut > 0 {
+		g = ghost{0, make([]uint8, sc.MultiOut), make([]uint8, sc.MultiOut)}
 	}
 	var h *bmsys.HDL
 	var s *bmsys.SIM
